@@ -1141,6 +1141,69 @@ Unlike the other kinds the `seq` records of a case depend on each other: the mon
 observer has seen the server give the client since the table last changed lies in a cached page received since then, such
 pages are what the server would answer now, and they are the most recent ones. -/
 
+theorem badListed_clientPage {w : World} {m : SeqMon} (h : SeqInv w m) (hit : Bool) (k : Bytes) :
+    badListed m hit (clientPage w k).1 = none := by
+  unfold badListed
+  split
+  · rename_i hcnd
+    simp only [Bool.and_eq_true, List.any_eq_true] at hcnd
+    obtain ⟨_, t, ht, hb⟩ := hcnd
+    have := (List.mem_filter.mp ht).2
+    rw [h.bad] at hb
+    rw [hb] at this
+    cases this
+  · rfl
+
+theorem list_fetched_no_clause (c : B64) {w : World} {m : SeqMon} (h : SeqInv w m) (k next : Bytes) :
+    (seqMonStep c m (.list k) (.listed false (clientPage w k).1 next)).2 = none := by
+  simp only [seqMonStep]
+  split
+  · exact badListed_clientPage h false k
+  · rw [badListed_clientPage h false k]
+    simp [Option.orElse, staleHit]
+
+theorem list_hit_no_clause (c : B64) {w : World} {m : SeqMon} (h : SeqInv w m) {k : Bytes} {pg : Page}
+    (hf : w.cache.find? (fun pg => pg.key == k) = some pg) :
+    (seqMonStep c m (.list k) (.listed true pg.tools pg.next)).2 = none := by
+  simp only [seqMonStep, Bool.not_true, Bool.and_false, Bool.false_eq_true, if_false]
+  have : badListed m true pg.tools = none := by simp [badListed]
+  rw [this]
+  simp only [Option.orElse]
+  exact staleHit_cached h hf true
+
+/-- On the model, a tool listed with invalid annotations raises neither `seqBadMirror` nor `seqBadCall`. -/
+theorem badCall_model (c : B64) (hc : c.Lawful) {w : World} {m : SeqMon} (h : SeqInv w m) (n : Bytes) (a : Args) :
+    badCall c m n a (callModel c w n a).1 (callModel c w n a).2 = none := by
+  unfold badCall
+  split
+  · rename_i hcnd
+    simp only [Bool.and_eq_true] at hcnd
+    obtain ⟨⟨hp, hf⟩, hb⟩ := hcnd
+    rw [h.bad] at hb
+    rw [h.proto] at hp
+    have hl := lookup_bad_none h hf hb
+    have hcm : callModel c w n a = callWith c w none n a := by unfold callModel; rw [hl]
+    rw [hcm, h.server]
+    cases hs : toolDef w.server n with
+    | none => simp [callWith, hp, hs]
+    | some ps =>
+      have h1 : (callWith c w none n a).1 = [] := by
+        simp only [callWith, hp, if_true, hs]
+        cases validateParamHeaders c ps a [] <;> rfl
+      simp only [h1, List.isEmpty_nil, Bool.not_true, Bool.false_eq_true, if_false]
+      split
+      · rename_i hc2
+        exfalso
+        simp only [Bool.and_eq_true, List.isEmpty_iff, bne_iff_ne, ne_eq] at hc2
+        obtain ⟨⟨⟨htv, hav⟩, hg⟩, hne⟩ := hc2
+        apply hne
+        have hacc := generated_params_accepted_prim c hc ps a ((toolValidB_iff ps).mp htv).2
+          (argsValidDoc_prim ((argsValidB_iff ps a).mp hav))
+        rw [hg] at hacc
+        simp [callWith, hp, hs, hacc]
+      · rfl
+  · rfl
+
 /-- No clause on the model's observation of any step taken from a state satisfying the invariant. -/
 theorem seq_step_no_clause (c : B64) (hc : c.Lawful) {w : World} {m : SeqMon} (h : SeqInv w m) (now : Nat) (op : SeqOp) :
     (seqMonStep c m op (stepW c w now op).2).2 = none := by
@@ -1150,19 +1213,18 @@ theorem seq_step_no_clause (c : B64) (hc : c.Lawful) {w : World} {m : SeqMon} (h
   | ttl v => rfl
   | adv => rfl
   | notified => rfl
+  | setBad n => rfl
+  | clearBad n => rfl
   | list k =>
     simp only [stepW]
     split
-    · simp only [seqMonStep]; split <;> first | rfl | simp [staleHit]
+    · exact list_fetched_no_clause c h k _
     · split
       · rename_i pg hf
         split
-        · simp only [seqMonStep]
-          split
-          · rfl
-          · exact staleHit_cached h hf true
-        · simp only [putPage, seqMonStep]; split <;> first | rfl | simp [staleHit]
-      · simp only [putPage, seqMonStep]; split <;> first | rfl | simp [staleHit]
+        · exact list_hit_no_clause c h hf
+        · exact list_fetched_no_clause c h k _
+      · exact list_fetched_no_clause c h k _
   | listSend k =>
     have hsent : (seqMonStep c m (.listSend k) (sendList w k).2).2 = none := by
       simp only [sendList, seqMonStep]
@@ -1185,17 +1247,14 @@ theorem seq_step_no_clause (c : B64) (hc : c.Lawful) {w : World} {m : SeqMon} (h
     cases hw : w.pend with
     | none => rfl
     | some p =>
-      simp only [recvList, seqMonStep]
-      cases m.pend with
-      | none => rfl
-      | some x =>
-        obtain ⟨ch, nt⟩ := x
-        simp only []
-        split
-        · rfl
-        · split
-          · rfl
-          · split <;> rfl
+      have hmpend : m.pend = some (!p.cur, p.gen != w.gen) := by rw [h.pendEq, hw]; rfl
+      simp only [recvList, seqMonStep, hmpend]
+      cases hcur : p.cur with
+      | false => rfl
+      | true =>
+        simp only [Bool.not_true]
+        rw [h.pendCur p hw hcur]
+        exact badListed_clientPage h false p.key
   | look n =>
     simp only [stepW, seqMonStep]
     split
@@ -1207,6 +1266,8 @@ theorem seq_step_no_clause (c : B64) (hc : c.Lawful) {w : World} {m : SeqMon} (h
     · rfl
   | call n a =>
     simp only [stepW, seqMonStep]
+    rw [badCall_model c hc h n a]
+    simp only [Option.orElse, callClause]
     rw [h.server, h.proto]
     rcases callWith_quiet c w (clientLookup w n) n a with hq | ⟨code, hq⟩
     all_goals
@@ -1237,6 +1298,40 @@ theorem seq_step_no_clause (c : B64) (hc : c.Lawful) {w : World} {m : SeqMon} (h
             simp only [bne_self_eq_false, Bool.false_eq_true, if_false]
             rw [gen_monitor_accepts_model c hc ps a _ (List.Perm.refl _)]
           · simp only [callModel, hq]
+
+  | setToolB n p => rfl
+  | delToolB n => rfl
+  | callB n a =>
+    simp only [stepW, seqMonStep]
+    rw [h.serverB, h.proto]
+    rcases callWith_quiet c { w with server := w.serverB } (toolDef w.serverB n) n a with hq | ⟨code, hq⟩
+    all_goals
+      cases hs : toolDef w.serverB n with
+      | none =>
+        simp only [callModelB, hs] at hq ⊢
+        simp only [hq]
+      | some ps =>
+        simp only []
+        cases hp : w.newProto with
+        | false =>
+          have : callModelB c w n a = ([], .okSame) := by
+            unfold callModelB callWith
+            simp [hp, hs]
+          simp [this]
+        | true =>
+          simp only [if_true]
+          split
+          · rename_i hcnd
+            simp only [Bool.and_eq_true] at hcnd
+            obtain ⟨htv, hav⟩ := hcnd
+            have hcall : callModelB c w n a = (generateParamHeaders c ps a, .okSame) :=
+              other_server_call_agrees c hc w hp hs a ((toolValidB_iff ps).mp htv).2
+                (argsValidDoc_prim ((argsValidB_iff ps a).mp hav))
+            rw [hcall]
+            simp only [bne_self_eq_false, Bool.false_eq_true, if_false]
+            rw [gen_monitor_accepts_model c hc ps a _ (List.Perm.refl _)]
+          · simp only [callModelB, hs] at hq ⊢
+            simp only [hq]
 
 /-- **seq.**  For every lawful codec, every configuration and EVERY list of operations with arbitrary clocks, the monitor
 run in lockstep on the model's observations raises no clause. -/
